@@ -25,7 +25,7 @@ def main():
                 print('gen', extractor())
             except Exception as exc:  # reported by the property's own check
                 print('gen failed', key, exc)
-    ok, out, secs = lean.lake_build(['WpModel', 'driver'])
+    ok, out, secs = lean.lake_build(['WpModel'] + [f'driver_{p.lower()}' for p in PROPS])
     print(out[-3000:])
     print(f'build ok={ok} in {secs:.1f}s')
     return 0 if ok else 1
